@@ -70,8 +70,11 @@ SESSIONS = {
     "d1": dict(peer="D", ebgp=True, rtr=40, ord=1, role="RsClient"),
     "e1": dict(peer="E", ebgp=False, rtr=5, ord=1, role="ConfedEbgp"),
     "f1": dict(peer="F", ebgp=False, rtr=15, ord=1, role="IbgpRrClient"),
+    # two more route-server clients: what the route server shows ONE client is chosen among the others' paths
+    "g1": dict(peer="G", ebgp=True, rtr=50, ord=1, role="RsClient"),
+    "h1": dict(peer="H", ebgp=True, rtr=8, ord=1, role="RsClient"),
 }
-PEER_ADDR = {"A": "10.0.0.1", "B": "10.0.0.2", "C": "10.0.0.3", "D": "10.0.0.4", "E": "10.0.0.5", "F": "10.0.0.6"}
+PEER_ADDR = {"A": "10.0.0.1", "B": "10.0.0.2", "C": "10.0.0.3", "D": "10.0.0.4", "E": "10.0.0.5", "F": "10.0.0.6", "G": "10.0.0.7", "H": "10.0.0.8"}
 PREFIXES = {"p1": "10.1.0.0/16", "p2": "10.1.128.0/17", "p3": "2001:db8::/33", "e1": "evpn2:1", "e2": "evpn2:2",
             "q1": "vpn:65000:1:10.9.0.0/24", "q2": "vpn:65000:2:2001:db8:9::/48"}
 NEXTHOPS = {"n1": "192.0.2.1", "n2": "192.0.2.2", "n3": "192.0.2.3"}
@@ -302,6 +305,22 @@ def compare_step(cfg, model_post, model_res, real, consumer, pre_ids, findings, 
             lids = [x["lid"] for x in r_list]
             if len(set(lids)) != len(lids):
                 bad.append(("c06.lid", {"prefix": p, "lids": lids}))
+    # C02, "shown by the API": the route server's choice for each of its clients - the best eligible path among those learned
+    # from the OTHER route-server clients
+    for q, per in st.get("rsview", {}).items():
+        for p in cfg.prefixes:
+            cand = [e for e in model_post["ent"][p] if not e["filt"] and e["nh"] not in nhbad
+                    and SESSIONS[e["sess"]].get("role") == "RsClient" and SESSIONS[e["sess"]]["peer"] != q]
+            have = per.get(p)
+            if not cand:
+                if have is not None:
+                    bad.append(("c02.rs_view", {"client": q, "prefix": p, "shown": have, "why": "nothing eligible from another client"}))
+                continue
+            kmin = min(model_post["keys"][e["sess"]][e["cls"]] for e in cand)
+            best = sorted({(e["sess"], e["cls"]) for e in cand if model_post["keys"][e["sess"]][e["cls"]] == kmin})
+            if have is None or (have["sess"], have["cls"]) not in best:
+                bad.append(("c02.rs_view", {"client": q, "prefix": p, "shown": have, "maximal": best,
+                                            "why": "the path the API shows the client as the route server's choice is not the best of the others' paths"}))
     for x in cfg.sessions:
         if st["stale"][x] != model_post["stale"][x] or st["llgr"][x] != model_post["llgr"][x]:
             bad.append(("state.flags", {"sess": x, "expected": [model_post["stale"][x], model_post["llgr"][x]],
